@@ -211,6 +211,9 @@ def oracle(svc, handler, real, inst=True, msg_id=7):
             if it[0] == "r":
                 if r["status"] != 0xC311:
                     out.append((f"{name}:exception-status", f"generator raised: status {r['status']:#06x}, documented 0xc311"))
+                elif r["ident"] == "data":
+                    out.append((f"{name}:exception-response-carries-identifier",
+                                f"generator raised after {i} value(s): the 0xc311 response carries an Identifier (documented: none)"))
                 break
             pr = sd.as_pair(it[1])
             if pr is None:
